@@ -61,10 +61,18 @@ package bindingcontext
 //@   ensures [versioned] bc.Metadata.Version == "v0" || bc.Metadata.Version == "v1" ==> result != nil && has(result, "binding") && Str(result["binding"], bc.Binding)
 
 // C09: the list handed to the hook has one item per binding context of the task, in order.
+// Ghost: the arguments and the result of the latest conversion (C12: what is written to the
+// hook's binding context file).
+//@ ghost lastConvIn []BindingContext
+//@ ghost lastConvVersion string
+//@ ghost lastConvOut BindingContextList
 //@ func ConvertBindingContextList
-//@   prop C09
+//@   prop C09, C12
 //@   requires version == "v0" || version == "v1"
-//@   modifies nothing
+//@   modifies lastConvIn, lastConvVersion, lastConvOut
+//@   ghostset lastConvIn := contexts
+//@   ghostset lastConvVersion := version
+//@   ghostset lastConvOut := result
 //@   ensures [length] len(result) == len(contexts)
 //@   ensures [order]  forall(i, 0, len(contexts), result[i] != nil && has(result[i], "binding") && Str(result[i]["binding"], contexts[i].Binding))
 //@   loop 1
